@@ -125,7 +125,7 @@ PROPS = {
         runs=[("coll", "store", "flatrun", 320, 6000, 30), TREE + (200, 3000, 30), ("refs", "", "refsrun", 48, 1000, 0)],
         corr=STRUCT | READS, corr_held=False,
         spec={"spec:gets", "spec:iter", "tspec:reads", "spec:full-compaction-shape", "tspec:full-compaction-shape",
-              "spec:stale-files", "spec:leaked-fd", "spec:leaked-mapping"}, spec_held=False,
+              "spec:stale-files", "spec:stale-files-after-file-switch", "spec:leaked-fd", "spec:leaked-mapping"}, spec_held=False,
         rule="store-backed collections with CompactionConcern disable/allow/force, level parameters 1-4 / 2-9, "
              "fragmentation thresholds 0.1/0.65/0.99, buffer pages 1/512, sync options; the footer's segment list "
              "after every persistence round (append, partial compaction at the observed splice point, full "
@@ -226,7 +226,7 @@ PROPS = {
         runs=[("refs", "", "refsrun", 64, 1500, 0)],
         corr={"driver-error", "harness-error"}, corr_held=False,
         spec={"spec:ref-count-jump", "spec:ref-use-after-release", "spec:ref-leak", "spec:handle-changed",
-              "spec:leaked-fd", "spec:leaked-mapping", "spec:stale-files"}, spec_held=False,
+              "spec:leaked-fd", "spec:leaked-mapping", "spec:stale-files", "spec:stale-files-after-file-switch"}, spec_held=False,
         rule="8-19 steps per case over a store-backed collection (child collections in half of the cases, leveled and "
              "forced compactions, CachePersisted sampled): persisted rounds, collection snapshots, child snapshots, "
              "iterators advanced part-way, store snapshots and their predecessors, mergeAll cycles, closing the "
